@@ -4,12 +4,12 @@ from vlib import Group
 CH = ["--bounds-check", "--pointer-check", "--div-by-zero-check"]
 # cpu: (class, extra includes, wf header, unwind, tier)
 SIMS = {
-    "lc3": ("SimulateLc3", [], None, 20, "quick"),
-    "tms9900": ("SimulateTms9900", [], None, 20, "quick"),
-    "msp430": ("SimulateMsp430", ["disasm/msp430.cpp", "table/msp430.cpp"], None, 20, "quick"),
-    "8008": ("Simulate8008", ["disasm/8008.cpp", "table/8008.cpp"], "C15/wf_8008.h", 20, "quick"),
-    "1802": ("Simulate1802", ["disasm/1802.cpp", "table/1802.cpp"], "C15/wf_1802.h", 20, "quick"),
-    "6502": ("Simulate6502", ["disasm/6502.cpp", "table/6502.cpp"], None, 20, "quick"),
+    "lc3": ("SimulateLc3", [], None, 26, "quick"),
+    "tms9900": ("SimulateTms9900", [], None, 26, "quick"),
+    "msp430": ("SimulateMsp430", ["disasm/msp430.cpp", "table/msp430.cpp"], None, 26, "quick"),
+    "8008": ("Simulate8008", ["disasm/8008.cpp", "table/8008.cpp"], "C15/wf_8008.h", 26, "quick"),
+    "1802": ("Simulate1802", ["disasm/1802.cpp", "table/1802.cpp"], "C15/wf_1802.h", 140, "quick"),
+    "6502": ("Simulate6502", ["disasm/6502.cpp", "table/6502.cpp"], None, 140, "quick"),
 }
 GROUPS = []
 for cpu, (cls, incs, wf, unw, tier) in SIMS.items():
